@@ -10,6 +10,7 @@ import (
 	"testing"
 
 	"pgregory.net/rapid"
+	"verif/elem"
 	"verif/vk"
 )
 
@@ -447,9 +448,132 @@ func genBlockPair(t *rapid.T) (a, b []int) {
 }
 
 // ---------------------------------------------------------------------------
+// Element kinds (see kinds.go).
+
+// genElem draws the element kind of a case: half of the cases keep the
+// original int elements, the others are spread over kinds.
+func genElem(t *rapid.T, kinds []string) string {
+	if rapid.Bool().Draw(t, "elemInt") {
+		return ""
+	}
+	return rapid.SampledFrom(kinds).Draw(t, "elem")
+}
+
+// hasTwins: the kind has elements that look equal and are not the same
+// (identities; for f64 the two zeros).
+func hasTwins(kind string) bool {
+	switch kind {
+	case elem.Str, elem.Wide, elem.Ptr, elem.Any, elem.Bytes, elem.F64, kindWords:
+		return true
+	}
+	return false
+}
+
+// genIDs draws the identities of a sequence of n elements: a few positions
+// with a non-zero identity, or (dense; always for f64, where only the zeros
+// care) a random bit per position.
+func genIDs(t *rapid.T, label string, n int, dense bool) []int {
+	if n == 0 {
+		return nil
+	}
+	if dense {
+		return rapid.SliceOfN(rapid.IntRange(0, 1), n, n).Draw(t, label+"_idBits")
+	}
+	ids := make([]int, n)
+	for _, p := range rapid.SliceOfN(rapid.IntRange(0, 1023), 0, 4).Draw(t, label+"_idPos") {
+		ids[p%n] = 1 + p%2
+	}
+	return ids
+}
+
+// genTwinIDs draws identities that differ from ids at one to three positions
+// (the same values, other elements).
+func genTwinIDs(t *rapid.T, label string, ids []int, n int) []int {
+	out := make([]int, n)
+	copy(out, ids)
+	if n == 0 {
+		return out
+	}
+	for _, p := range rapid.SliceOfN(rapid.IntRange(0, 1023), 1, 3).Draw(t, label+"_twinPos") {
+		out[p%n] = (out[p%n] + 1 + p/n%2) % 3
+	}
+	return out
+}
+
+// genPairIDs decorates a pair of sequences of a kind with twins.  One case in
+// three is the trap of a structural comparison: b becomes a copy of a's
+// VALUES and only some identities differ (ptr / any: distinct pointers to
+// deeply equal pointees; f64: zeros of the other sign, which leaves the
+// inputs equal).
+func genPairIDs(t *rapid.T, kind string, a, b []int) (a2, b2, aid, bid []int) {
+	dense := kind == elem.F64 || rapid.IntRange(0, 3).Draw(t, "idDense") == 0
+	aid = genIDs(t, "a", len(a), dense)
+	if rapid.IntRange(0, 2).Draw(t, "idClone") == 0 {
+		b = append([]int(nil), a...)
+		if kind == elem.F64 {
+			return a, b, aid, genIDs(t, "b", len(b), true)
+		}
+		return a, b, aid, genTwinIDs(t, "b", aid, len(b))
+	}
+	return a, b, aid, genIDs(t, "b", len(b), dense)
+}
+
+// twinDigits reads the digits of an exhaustive scope as elements of a kind
+// with identities: the digits 2v and 2v+1 are the two identities of the value
+// v.  The digits stay what the references see (distinct digits are distinct
+// elements), and neighbours are equal-looking.
+func twinDigits(ds []int) (vs, ids []int) {
+	vs, ids = make([]int, len(ds)), make([]int, len(ds))
+	for i, d := range ds {
+		vs[i], ids[i] = d>>1, d&1
+	}
+	return
+}
+
+// bitIDs takes n identity bits from a hash.
+func bitIDs(h uint64, n int) []int {
+	ids := make([]int, n)
+	for i := range ids {
+		ids[i] = int(h >> (uint(i) % 48) & 1)
+	}
+	return ids
+}
+
+// exhPairElem gives the pair (a, b) of an exhaustive scope its element kind
+// by case index: identities by twinDigits (twin) or from the hash.
+func exhPairElem(idx int, kinds []string, twin bool, a, b []int) (kind string, a2, b2, aid, bid []int, share bool) {
+	kind, h := cycleKind(idx, kinds)
+	switch {
+	case !hasTwins(kind):
+		return kind, a, b, nil, nil, false
+	case twin && kind != elem.F64:
+		a2, aid = twinDigits(a)
+		b2, bid = twinDigits(b)
+		return kind, a2, b2, aid, bid, h&1 == 1
+	}
+	return kind, a, b, bitIDs(h>>1, len(a)), bitIDs(h>>25, len(b)), h&1 == 1
+}
+
+// ---------------------------------------------------------------------------
 // C11.
 
 func genEditCase(t *rapid.T) EditCase {
+	c := genEditInts(t)
+	c.Elem = genElem(t, kindsComparable)
+	if !hasTwins(c.Elem) {
+		return c
+	}
+	c.Share = c.Elem == kindWords && rapid.Bool().Draw(t, "share")
+	if c.Buf != nil {
+		c.BID = genIDs(t, "buf", len(c.Buf), c.Elem == elem.F64 || rapid.Bool().Draw(t, "idDense"))
+		return c
+	}
+	c.Lhs, c.Rhs, c.LID, c.RID = genPairIDs(t, c.Elem, c.Lhs, c.Rhs)
+	return c
+}
+
+// genEditInts draws the values of a case.
+func genEditInts(t *rapid.T) EditCase {
 	if rapid.IntRange(0, 2).Draw(t, "blockShape") == 0 {
 		a, b := genBlockPair(t)
 		if rapid.Bool().Draw(t, "blockSwap") {
@@ -488,6 +612,7 @@ func genBigEdit(t *rapid.T) EditCase {
 	if len(c.BigDel)+len(c.BigIns) == 0 || rapid.IntRange(0, 3).Draw(t, "early") == 0 {
 		c.BigDel = append(c.BigDel, rapid.IntRange(0, 20).Draw(t, "earlyDel")) // a difference near the start
 	}
+	c.Elem = genElem(t, kindsComparable)
 	return c
 }
 
@@ -500,12 +625,14 @@ func TestC11Exhaustive(t *testing.T) {
 	h := vk.Start(t, "C11", "exh")
 	e := newExh(h, t, c11Names, checkEdit)
 	for _, sp := range pairSpaces(h, false) {
-		h.Note("exhaustive: %s", sp)
+		h.Note("exhaustive: %s; element kinds dealt by case index, half int (the digits 2v, 2v+1 are two identities of the value v for the kinds that have them)", sp)
 		for s := 0; s < sp.levels(); s++ {
 			n, dec := sp.level(s)
 			if !e.level(n, func(i int) (EditCase, bool) {
 				a, b, ok := dec(i)
-				return EditCase{Lhs: a, Rhs: b}, ok
+				c := EditCase{}
+				c.Elem, c.Lhs, c.Rhs, c.LID, c.RID, c.Share = exhPairElem(i+s*7919, kindsComparable, true, a, b)
+				return c, ok
 			}) {
 				break
 			}
@@ -516,7 +643,8 @@ func TestC11Exhaustive(t *testing.T) {
 
 // TestC11Alias: lhs and rhs are two views of ONE backing array (a slice
 // against its own prefix, suffix, or any other window): every buffer over
-// {0,1,2} up to a length bound x every ordered pair of windows.
+// {0,1,2} up to a length bound x every ordered pair of windows.  Element
+// kinds are dealt by case index as in the exh leg.
 func TestC11Alias(t *testing.T) {
 	h := vk.Start(t, "C11", "alias")
 	e := newExh(h, t, c11Names, checkEdit)
@@ -543,7 +671,9 @@ func TestC11Alias(t *testing.T) {
 				buf[i] = b % 3
 				b /= 3
 			}
-			return EditCase{Buf: buf, LV: lv, RV: rv}, true
+			c := EditCase{LV: lv, RV: rv}
+			c.Elem, c.Buf, _, c.BID, _, c.Share = exhPairElem(idx+l*7919, kindsComparable, true, buf, nil)
+			return c, true
 		}) {
 			break
 		}
@@ -555,6 +685,31 @@ func TestC11Alias(t *testing.T) {
 // C12: LCS.
 
 func genLCSCase(t *rapid.T) LCSCase {
+	c := genLCSInts(t)
+	if c.Fold {
+		c.Elem = genElem(t, kindsLCSFunc)
+	} else {
+		c.Elem = genElem(t, kindsComparable)
+	}
+	if !hasTwins(c.Elem) {
+		return c
+	}
+	c.Share = c.Elem == kindWords && rapid.Bool().Draw(t, "share")
+	switch {
+	case c.Lay == 4:
+		c.AID = genIDs(t, "a", len(c.As), c.Elem == elem.F64 || rapid.Bool().Draw(t, "idDense"))
+	case c.Lay == 5:
+		c.BID = genIDs(t, "b", len(c.Bs), c.Elem == elem.F64 || rapid.Bool().Draw(t, "idDense"))
+	case c.Fold: // the identities do not take part in the folding equality
+		c.AID, c.BID = genIDs(t, "a", len(c.As), true), genIDs(t, "b", len(c.Bs), true)
+	default:
+		c.As, c.Bs, c.AID, c.BID = genPairIDs(t, c.Elem, c.As, c.Bs)
+	}
+	return c
+}
+
+// genLCSInts draws the values of a case.
+func genLCSInts(t *rapid.T) LCSCase {
 	if rapid.IntRange(0, 3).Draw(t, "blockShape") == 0 {
 		a, b := genBlockPair(t)
 		if rapid.Bool().Draw(t, "blockSwap") {
@@ -601,7 +756,7 @@ func TestC12LCSExhaustive(t *testing.T) {
 	h := vk.Start(t, "C12", "lcsexh")
 	e := newExh(h, t, c12LCSNames, checkLCS)
 	for _, sp := range pairSpaces(h, true) {
-		h.Note("exhaustive, each pair with == and (elements read as 2*letter+case) with the folding equality: %s", sp)
+		h.Note("exhaustive, each pair with == and (elements read as 2*letter+case) with the folding equality: %s; element kinds dealt by case index, half int", sp)
 		for s := 0; s < sp.levels(); s++ {
 			n, dec := sp.level(s)
 			if !e.level(2*n, func(i int) (LCSCase, bool) {
@@ -621,6 +776,13 @@ func TestC12LCSExhaustive(t *testing.T) {
 						c.Lay, c.Win = 5, [2]int{len(b) - len(a), len(b)}
 					}
 				}
+				// the element kind, by case index; under the folding equality the
+				// digits keep their meaning 2*letter+case
+				if c.Fold {
+					c.Elem, _, _, c.AID, c.BID, c.Share = exhPairElem(i+s*7919, kindsLCSFunc, false, a, b)
+				} else {
+					c.Elem, c.As, c.Bs, c.AID, c.BID, c.Share = exhPairElem(i+s*7919, kindsComparable, true, a, b)
+				}
 				return c, ok
 			}) {
 				break
@@ -638,7 +800,45 @@ var cmpKinds = []string{"nat", "rev", "half"}
 // cmpKindsRand adds comparisons that return magnitudes / extreme values.
 var cmpKindsRand = []string{"nat", "rev", "half", "extreme", "diff"}
 
-func genSeqCase(t *rapid.T) SeqCase {
+func genSeqCase(t *rapid.T) SeqCase { return genSeqElem(t, genSeqInts(t), false) }
+
+// genSeqElem draws the element kind of a case: an ordered one for the natural
+// order, any for the comparison functions; i16 only where the values fit (big:
+// never).  f64 gets negative zeros at a few positions (preferably where the
+// value is 0) and, in the natural order, sometimes NaNs.
+func genSeqElem(t *rapid.T, c SeqCase, big bool) SeqCase {
+	nat := c.Cmp == "nat" || c.Cmp == ""
+	kinds := kindsAny
+	if nat {
+		kinds = kindsOrdered
+	}
+	c.Elem = genElem(t, kinds)
+	if c.Elem == elem.I16 && (big || len(c.Vs) > 0 && (slices.Min(c.Vs) < math.MinInt16 || slices.Max(c.Vs) > math.MaxInt16)) {
+		c.Elem = "" // (values that fit before Wide stretches them fit afterwards)
+	}
+	if c.Elem != elem.F64 {
+		return c
+	}
+	var zeros []int
+	for i, v := range c.Vs {
+		if v == 0 {
+			zeros = append(zeros, i)
+		}
+	}
+	for _, p := range rapid.SliceOfN(rapid.IntRange(0, 1023), 0, 4).Draw(t, "negPos") {
+		if len(zeros) > 0 {
+			p = zeros[p%len(zeros)]
+		}
+		c.Neg = append(c.Neg, p)
+	}
+	if nat && rapid.Bool().Draw(t, "withNaN") {
+		c.NaN = rapid.SliceOfN(rapid.IntRange(0, 1023), 1, 3).Draw(t, "nanPos")
+	}
+	return c
+}
+
+// genSeqInts draws the values of a case.
+func genSeqInts(t *rapid.T) SeqCase {
 	c := SeqCase{Cmp: rapid.SampledFrom(cmpKindsRand).Draw(t, "cmp"), Wide: rapid.IntRange(0, 3).Draw(t, "wide") == 0}
 	k := rapid.SampledFrom([]int{3, 2, 4, 6, 1, 5}).Draw(t, "values")
 	if c.Cmp == "half" {
@@ -777,7 +977,7 @@ func genBigSeq(t *rapid.T) SeqCase {
 		}
 		add(start, step, min(n, 280000-total))
 	}
-	return c
+	return genSeqElem(t, c, true)
 }
 
 func TestC12LISBig(t *testing.T) {
@@ -808,7 +1008,7 @@ func TestC12LISExhaustive(t *testing.T) {
 		return false
 	}
 	for _, sc := range scopes {
-		h.Note("exhaustive: all sequences over {0..%d} up to length %d, each with the natural, the reversed and the v>>1 comparison (sequences already in a smaller-alphabet scope are skipped)", sc.k-1, sc.maxLen)
+		h.Note("exhaustive: all sequences over {0..%d} up to length %d, each with the natural, the reversed and the v>>1 comparison (sequences already in a smaller-alphabet scope are skipped); element kinds dealt by case index, half int", sc.k-1, sc.maxLen)
 	}
 	maxLen := 0
 	for _, sc := range scopes {
@@ -825,7 +1025,29 @@ func TestC12LISExhaustive(t *testing.T) {
 				if covered(vs, sc.k) {
 					return SeqCase{}, false
 				}
-				return SeqCase{Vs: vs, Cmp: cmpKinds[i%3]}, true
+				c := SeqCase{Vs: vs, Cmp: cmpKinds[i%3]}
+				// the element kind, by case index; f64 with negative zeros and (natural
+				// order, every other case) one or two NaNs at positions from the hash
+				kinds := kindsAny
+				if i%3 == 0 {
+					kinds = kindsOrdered
+				}
+				var hh uint64
+				c.Elem, hh = cycleKind(i+l*7919, kinds)
+				if c.Elem == elem.F64 && l > 0 {
+					for p := 0; p < l; p++ {
+						if hh>>uint(p)&1 == 1 {
+							c.Neg = append(c.Neg, p)
+						}
+					}
+					if i%3 == 0 && hh>>30&1 == 1 {
+						c.NaN = []int{int(hh >> 32 % uint64(l))}
+						if hh>>31&1 == 1 {
+							c.NaN = append(c.NaN, int(hh>>40%uint64(l)))
+						}
+					}
+				}
+				return c, true
 			}) {
 				break
 			}
@@ -841,7 +1063,17 @@ func genUtilCase(t *rapid.T) UtilCase {
 	c := UtilCase{Fn: rapid.SampledFrom([]string{
 		"Partition", "Partition", "Rotate", "Rotate", "Rotate", "Chunks", "Chunks", "Batches", "Batches",
 		"Head", "Tail", "Stripe", "At", "PtrAt"}).Draw(t, "fn")}
-	c.N = rapid.OneOf(rapid.IntRange(0, 20), rapid.IntRange(15, 300)).Draw(t, "n")
+	if rapid.Bool().Draw(t, "elemOther") {
+		c.Elem = rapid.SampledFrom(kindsUtil).Draw(t, "elem")
+		if c.Elem == kindB8 && c.Fn == "Stripe" {
+			c.Elem = elem.I16
+		}
+	}
+	maxN := 300
+	if c.Elem == kindB8 {
+		maxN = b8MaxN // as many distinct elements as a byte has room for
+	}
+	c.N = rapid.OneOf(rapid.IntRange(0, 20), rapid.IntRange(15, maxN)).Draw(t, "n")
 	c.Spare = rapid.SampledFrom([]int{0, 0, 1, 3, 7}).Draw(t, "spare")
 	n := c.N
 	// around draws an argument at or next to one of the given points, or
@@ -893,11 +1125,29 @@ func genUtilCase(t *rapid.T) UtilCase {
 				}
 			}
 		}
+		if hasTwins(c.Elem) && c.N > 0 {
+			// equal-looking elements: a few, all, or about half of the positions
+			switch rapid.IntRange(0, 3).Draw(t, "dupShape") {
+			case 0:
+			case 1:
+				c.Dup = rapid.SliceOfN(rapid.IntRange(0, c.N-1), 1, 8).Draw(t, "dupFew")
+			case 2:
+				for i := 0; i < c.N; i++ {
+					c.Dup = append(c.Dup, i)
+				}
+			default:
+				for i, b := range rapid.SliceOfN(rapid.IntRange(0, 1), c.N, c.N).Draw(t, "dupBits") {
+					if b == 1 {
+						c.Dup = append(c.Dup, i)
+					}
+				}
+			}
+		}
 	case "Rotate":
 		if rapid.IntRange(0, 2).Draw(t, "composite") == 0 {
 			// by construction gcd(k, n) > 1: n = a*b, k = +-a*c
 			a := rapid.IntRange(2, 12).Draw(t, "a")
-			b := rapid.IntRange(2, 25).Draw(t, "b")
+			b := rapid.IntRange(2, maxN/12).Draw(t, "b")
 			cc := rapid.IntRange(1, b-1).Draw(t, "c")
 			c.N, c.K = a*b, a*cc
 			if rapid.Bool().Draw(t, "left") {
@@ -937,7 +1187,7 @@ func TestC17Exhaustive(t *testing.T) {
 	maxRows, maxRowLen := h.Pick(4, 5), h.Pick(3, 4)
 	h.Note("exhaustive: Partition every keep pattern of n<=%d distinct elements (spare capacity 0 and 2); Rotate every n<=%d, k in [-n-2,n+2] (spare 0,1); "+
 		"Chunks/Batches every len<=%d, n in [-1,max(17,len+3)] (spare 0,2); Head/Tail len<=%d, n in [0,len+2]; At/PtrAt len<=%d, i in [-len-2,len+2]; "+
-		"Stripe every tuple of <=%d rows of lengths 0..%d, i in [0,max+1]", maxPart, maxRot, maxCB, maxCB, maxCB, maxRows, maxRowLen)
+		"Stripe every tuple of <=%d rows of lengths 0..%d, i in [0,max+1]; element kinds dealt by case index, half int", maxPart, maxRot, maxCB, maxCB, maxCB, maxRows, maxRowLen)
 	top := max(maxPart, maxRot, maxCB)
 	for n := 0; n <= top; n++ {
 		var cases []UtilCase
@@ -974,12 +1224,30 @@ func TestC17Exhaustive(t *testing.T) {
 				}
 			}
 		}
-		if !e.level(len(cases), func(i int) (UtilCase, bool) { return cases[i], true }) {
+		if !e.level(len(cases), func(i int) (UtilCase, bool) {
+			c := cases[i]
+			c.Elem, _ = cycleKind(i+n*7919, kindsUtil)
+			if c.Elem == kindB8 && c.Fn == "Stripe" {
+				c.Elem = elem.I16
+			}
+			return c, true
+		}) {
 			break
 		}
 		if n <= maxPart {
 			if !e.level(2<<uint(n), func(i int) (UtilCase, bool) {
-				return UtilCase{Fn: "Partition", N: n, Keep: digits(i/2, 2, n), Spare: 2 * (i % 2)}, true
+				c := UtilCase{Fn: "Partition", N: n, Keep: digits(i/2, 2, n), Spare: 2 * (i % 2)}
+				var hh uint64
+				c.Elem, hh = cycleKind(i+n*7919, kindsUtil)
+				if hasTwins(c.Elem) {
+					// equal-looking elements at the positions given by the hash, or everywhere
+					for p := 0; p < n; p++ {
+						if hh>>uint(p)&1 == 1 || hh>>20&3 == 0 {
+							c.Dup = append(c.Dup, p)
+						}
+					}
+				}
+				return c, true
 			}) {
 				break
 			}
